@@ -36,27 +36,33 @@ Inductive trimfn := TBoth | TLeft | TRight.
 (* ---- cases ----------------------------------------------------------------- *)
 (* One constructor per function: inputs, then the observed output. Maps are
    given as their list of entries (distinct keys); map-order dependent outputs
-   are recorded sorted. *)
+   are recorded sorted.
+   [calls]: the observed call log of the callback (arguments of every call, in
+   order). For Fold, FoldReverse and MapErr the property text fixes the calls and
+   the log is always compared. For the other functions the property fixes only
+   the result: the harness passes [Some log] when the implementation calls its
+   callback as the present code does (then the call-log model must reproduce the
+   log) and [None] when an implementation's call pattern differs (not compared). *)
 Inductive case :=
 | CIndex (l : list Z) (v : Z) (obs : Z)
-| CIndexFunc (l : list Z) (p : predp) (obs : Z)
+| CIndexFunc (l : list Z) (p : predp) (obs : Z) (calls : option (list Z))
 | CContains (l : list Z) (v : Z) (obs : bool)
-| CContainsFunc (l : list Z) (v : Z) (e : eqp) (obs : bool)
+| CContainsFunc (l : list Z) (v : Z) (e : eqp) (obs : bool) (calls : option (list (Z * Z)))
 | CTrim (f : trimfn) (l unwanted : list Z) (obs : result (list Z))
-| CTrimFunc (f : trimfn) (l : list Z) (p : predp) (obs : result (list Z))
+| CTrimFunc (f : trimfn) (l : list Z) (p : predp) (obs : result (list Z)) (calls : option (list Z))
 | CDistinct (l : list Z) (obs : list Z)
-| CDistinctFunc (l : list Z) (e : eqp) (obs : list Z)
+| CDistinctFunc (l : list Z) (e : eqp) (obs : list Z) (calls : option (list (Z * Z)))
 | CTryGet (l : list Z) (i : Z) (obs : result (Z * bool))
 | CSafeGet (l : list Z) (i : Z) (obs : result Z)
 | CSafeGetOr (l : list Z) (i fallback : Z) (obs : result Z)
 | CLast (l : list Z) (obs : result Z)
-| CAny (l : list Z) (p : predp) (obs : bool)
-| CAll (l : list Z) (p : predp) (obs : bool)
-| CMap (l : list Z) (c : convp) (obs : result (list Z))
+| CAny (l : list Z) (p : predp) (obs : bool) (calls : option (list Z))
+| CAll (l : list Z) (p : predp) (obs : bool) (calls : option (list Z))
+| CMap (l : list Z) (c : convp) (obs : result (list Z)) (calls : option (list Z))
 | CMapErr (l : list Z) (c : convp) (obs : result (list Z * option Z * list Z))
-| CFilter (l : list Z) (p : predp) (obs : list Z)
-| CFold (l : list Z) (seed : Z) (a : accp) (obs : Z)
-| CFoldReverse (l : list Z) (seed : Z) (a : accp) (obs : result Z)
+| CFilter (l : list Z) (p : predp) (obs : list Z) (calls : option (list Z))
+| CFold (l : list Z) (seed : Z) (a : accp) (obs : Z) (calls : list (Z * Z))
+| CFoldReverse (l : list Z) (seed : Z) (a : accp) (obs : result Z) (calls : list (Z * Z))
 | CGroupBy (l : list Z) (k : keyp) (obs : result (list (Z * list Z)))
 | CCountBy (l : list Z) (k : keyp) (obs : result (list (Z * Z)))
 | CExcept (l exclude : list Z) (obs : list Z)
@@ -82,36 +88,64 @@ Definition zpair_eqb : Z * Z -> Z * Z -> bool := prod_eqb Z.eqb Z.eqb.
 Definition to_gmap (m : list (Z * Z)) : gmap Z Z := list_to_map m.
 Definition entries (g : gmap Z Z) : list (Z * Z) := map_to_list g.
 
+(* an observed call log, when given, must be the one the call-log model predicts *)
+Definition calls_ok {T} (eqb : T -> T -> bool) (model : list T) (obs : option (list T)) : bool :=
+  match obs with None => true | Some log => list_eqb eqb model log end.
+
 Definition check_case (c : case) : bool :=
   match c with
   | CIndex l v obs => index Z.eqb l v =? obs
-  | CIndexFunc l p obs => indexfunc l (run_pred p) =? obs
+  | CIndexFunc l p obs calls =>
+      let '(r, log) := indexfunc_calls l (run_pred p) in
+      (indexfunc l (run_pred p) =? obs) && (r =? obs) && calls_ok Z.eqb log calls
   | CContains l v obs => Bool.eqb (contains Z.eqb l v) obs
-  | CContainsFunc l v e obs => Bool.eqb (containsfunc l v (run_eq e)) obs
+  | CContainsFunc l v e obs calls =>
+      let '(r, log) := containsfunc_calls l v (run_eq e) in
+      Bool.eqb (containsfunc l v (run_eq e)) obs && Bool.eqb r obs && calls_ok zpair_eqb log calls
   | CTrim f l u obs =>
       result_eqb zlist_eqb
         (match f with TBoth => trim Z.eqb l u | TLeft => Ok (trimleft Z.eqb l u) | TRight => trimright Z.eqb l u end) obs
-  | CTrimFunc f l p obs =>
+  | CTrimFunc f l p obs calls =>
+      let '(r, log) := match f with
+                       | TBoth => trimfunc_calls l (run_pred p)
+                       | TLeft => let '(r, log) := trimleftfunc_calls l (run_pred p) in (Ok r, log)
+                       | TRight => trimrightfunc_calls l (run_pred p)
+                       end in
       result_eqb zlist_eqb
         (match f with
          | TBoth => trimfunc l (run_pred p)
          | TLeft => Ok (trimleftfunc l (run_pred p))
          | TRight => trimrightfunc l (run_pred p)
-         end) obs
+         end) obs && result_eqb zlist_eqb r obs && calls_ok Z.eqb log calls
   | CDistinct l obs => zlist_eqb (distinct Z.eqb l) obs
-  | CDistinctFunc l e obs => zlist_eqb (distinctfunc l (run_eq e)) obs
+  | CDistinctFunc l e obs calls =>
+      let '(r, log) := distinctfunc_calls l (run_eq e) in
+      zlist_eqb (distinctfunc l (run_eq e)) obs && zlist_eqb r obs && calls_ok zpair_eqb log calls
   | CTryGet l i obs => result_eqb (prod_eqb Z.eqb Bool.eqb) (tryget 0 l i) obs
   | CSafeGet l i obs => result_eqb Z.eqb (safeget 0 l i) obs
   | CSafeGetOr l i fb obs => result_eqb Z.eqb (safegetor l i fb) obs
   | CLast l obs => result_eqb Z.eqb (last_ l) obs
-  | CAny l p obs => Bool.eqb (any l (run_pred p)) obs
-  | CAll l p obs => Bool.eqb (all l (run_pred p)) obs
-  | CMap l c obs => result_eqb zlist_eqb (map_ 0 l (fun v => fst (run_conv c v))) obs
+  | CAny l p obs calls =>
+      let '(r, log) := any_calls l (run_pred p) in
+      Bool.eqb (any l (run_pred p)) obs && Bool.eqb r obs && calls_ok Z.eqb log calls
+  | CAll l p obs calls =>
+      let '(r, log) := all_calls l (run_pred p) in
+      Bool.eqb (all l (run_pred p)) obs && Bool.eqb r obs && calls_ok Z.eqb log calls
+  | CMap l c obs calls =>
+      let '(r, log) := map_calls 0 l (fun v => fst (run_conv c v)) in
+      result_eqb zlist_eqb (map_ 0 l (fun v => fst (run_conv c v))) obs && result_eqb zlist_eqb r obs &&
+      calls_ok Z.eqb log calls
   | CMapErr l c obs =>
       result_eqb (prod_eqb (prod_eqb zlist_eqb (option_eqb Z.eqb)) zlist_eqb) (maperr 0 l (run_conv c)) obs
-  | CFilter l p obs => zlist_eqb (filter_ l (run_pred p)) obs
-  | CFold l seed a obs => fold l seed (run_acc a) =? obs
-  | CFoldReverse l seed a obs => result_eqb Z.eqb (foldreverse l seed (run_acc a)) obs
+  | CFilter l p obs calls =>
+      let '(r, log) := filter_calls l (run_pred p) in
+      zlist_eqb (filter_ l (run_pred p)) obs && zlist_eqb r obs && calls_ok Z.eqb log calls
+  | CFold l seed a obs calls =>
+      let '(r, log) := fold_calls l seed (run_acc a) in
+      (fold l seed (run_acc a) =? obs) && (r =? obs) && list_eqb zpair_eqb log calls
+  | CFoldReverse l seed a obs calls =>
+      let '(r, log) := foldreverse_calls l seed (run_acc a) in
+      result_eqb Z.eqb (foldreverse l seed (run_acc a)) obs && result_eqb Z.eqb r obs && list_eqb zpair_eqb log calls
   | CGroupBy l k obs =>
       result_eqb (list_eqb (prod_eqb Z.eqb zlist_eqb)) (groupby Z.eqb 0 l (run_key k)) obs
   | CCountBy l k obs => result_eqb (list_eqb zpair_eqb) (countby Z.eqb 0 l (run_key k)) obs
